@@ -1000,7 +1000,7 @@ func bridgeCfgFor(prop, tier string) (BridgeCfg, engine.Config) {
 	cfg := BridgeCfg{Prop: prop, Tokens: stdTokens(18), Powers: []int64{10, 10, 10}, Users: 1,
 		Amounts: []int64{1000}, Fees: []int64{7, 50}, DepAmts: []int64{500}, DepFees: []int64{0}, DepDests: []string{"hub"},
 		SendChains: []string{"ethereum", "minter"}, SendDenoms: []string{"hub", "eth"}, DepChains: []string{"ethereum"}, Timeout: 3600}
-	ec := engine.Config{MaxDepth: 4, Deadline: 70 * time.Second, ReplayLeaf: 40}
+	ec := engine.Config{MaxDepth: 4, Deadline: 180 * time.Second, ReplayLeaf: 40}
 	if thorough {
 		ec = engine.Config{MaxDepth: 7, Deadline: 15 * time.Minute, ReplayLeaf: 300}
 	}
